@@ -35,6 +35,8 @@ type S struct {
 	e    *genx.Env
 	t0   time.Time // time the generation end was injected (promptness reference); zero = none
 	bad  bool
+	// alwaysLog: pass the history to the extracted monitor even when an oracle already failed
+	alwaysLog bool
 }
 
 func (s *S) fail(what, kase string) { s.bad = true; s.c.Fail(what, s.name+" "+kase) }
@@ -122,7 +124,7 @@ func (s *S) finish() {
 	if amb > 0 {
 		s.c.Count("ambiguous-acceptance")
 	}
-	if s.bad {
+	if s.bad && !s.alwaysLog {
 		// already reported by an implementation-level oracle with its own case
 		s.c.Count("scenario-failed:" + s.name)
 		return
@@ -480,6 +482,83 @@ func waitUntil(d time.Duration, f func() bool) bool {
 	return f()
 }
 
+// scenario (passive HSMS-SS): a connection is accepted at the instant its still-listening generation
+// is torn down by Close (just before / from inside / just after the listener's Close). The library
+// must close that connection: after a re-Open the OLD connection then writes a reply carrying the
+// system bytes of a send in flight on the NEW generation, a Linktest.req, a Select.req and a data
+// primary — nothing of it may be delivered or answered on the new generation.
+func passiveAcceptRace(c *vh.Ctx, mode int) {
+	o := genx.DefaultOptions()
+	o.Passive, o.CloseTimeout = true, 3*time.Second
+	s := newS(c, fmt.Sprintf("passive-accept-race-%d", mode), o, nil)
+	s.alwaysLog = true
+	defer s.finish()
+	e := s.e
+	if !s.must(e.OpenBackground() == nil, "open (listening)") {
+		return
+	}
+	if !s.must(waitUntil(5*time.Second, func() bool { return e.Listener() != nil }), "listening") {
+		return
+	}
+	l0 := e.Listener()
+	old := e.ArmRace(mode, 2*time.Second)
+	if !s.must(old != nil, "connection armed") {
+		return
+	}
+	t0 := time.Now()
+	err := e.Close()
+	if d := time.Since(t0); d > parkBound {
+		s.fail("Close of a listening generation blocked", fmt.Sprintf("mode=%d took=%s closeTimeout=%s", mode, d.Round(time.Millisecond), o.CloseTimeout))
+	}
+	if errors.Is(err, hsms.ErrCloseTimeout) {
+		s.fail("Close returned ErrCloseTimeout although no application handler is blocked", fmt.Sprintf("accept racing the teardown of a listening generation, mode=%d", mode))
+	}
+	select {
+	case <-old.EOF:
+	case <-time.After(parkBound):
+		s.fail("a connection accepted while its listening generation was being torn down was left open", fmt.Sprintf("mode=%d", mode))
+	}
+	if !s.must(e.OpenBackground() == nil, "re-open") {
+		return
+	}
+	if !s.must(waitUntil(5*time.Second, func() bool { return e.Listener() != nil && e.Listener() != l0 }), "listening again") {
+		return
+	}
+	np := e.Connect(5 * time.Second)
+	if !s.must(np != nil && e.WaitState(hsms.SelectedState, 5*time.Second), "new peer selected") {
+		return
+	}
+	np.Mute.Store(true)
+	cl := e.Start(genx.KSyncW, context.Background())
+	if !s.must(waitUntil(5*time.Second, cl.OnWire), "primary of the new generation on the wire") {
+		return
+	}
+	held := np.TakeHeld()
+	// the OLD connection keeps talking
+	for _, f := range held {
+		_ = old.Reply(f)
+	}
+	_ = old.LinktestReq()
+	_ = old.SelectReq()
+	_ = old.Primary(7)
+	time.Sleep(20 * time.Millisecond)
+	if n := np.CtrlSeen[6].Load(); n > 0 {
+		s.fail("stale frame: a Linktest.req received on a connection of an ended generation was answered on the current generation's connection", fmt.Sprintf("mode=%d linktest.rsp=%d", mode, n))
+	}
+	if n := np.CtrlSeen[2].Load(); n > 1 {
+		s.fail("stale frame: a Select.req received on a connection of an ended generation was answered on the current generation's connection", fmt.Sprintf("mode=%d select.rsp=%d", mode, n))
+	}
+	if n := e.HandlerCalls.Load(); n > 0 {
+		s.fail("a data message received on a connection of an ended generation was delivered to the handlers", fmt.Sprintf("mode=%d handler_calls=%d", mode, n))
+	}
+	for _, f := range held {
+		_ = np.Reply(f)
+	}
+	np.Mute.Store(false)
+	cl.Wait(5 * time.Second)
+	s.probe(3)
+}
+
 // scenario: the peer of generation 0 never answers Select.req; T7 ends the generation; data sends
 // issued meanwhile are refused; generation 1 selects.
 func t7(c *vh.Ctx) {
@@ -671,6 +750,9 @@ func main() {
 			parkedOnFullQueue(c, cWriteTimeout, 2+r.Intn(3), true)
 			parkedOnFullQueue(c, cT8, 2+r.Intn(3), false) // T8 needs the receive goroutine reading
 			parkedOnFullQueue(c, cPeerClose, 1, false)
+			for _, m := range []int{genx.RaceBeforeClose, genx.RaceAtClose, genx.RaceAfterClose} {
+				passiveAcceptRace(c, m)
+			}
 		} else {
 			parkedOnFullQueue(c, cClose, 2+r.Intn(3), false)
 			parkedOnFullQueue(c, cPeerClose, 2+r.Intn(3), false)
